@@ -164,10 +164,23 @@ def _validator_atoms(e: Optional[ast.expr], local_vals: Dict[str, list]) -> list
     raise ValueError("unrecognised validator expression: " + src[:160])
 
 
+_CLASSES: Dict[str, "Cls"] = {}   # set by build(); lets a validator named through a subclass be traced to its defining class
+
+
+def _defining_class(owner: str, nested: str) -> str:
+    """`Router._NodeIsOnValidator` is `Node._NodeIsOnValidator`: the nearest class along the MRO that defines the nested class"""
+    if owner not in _CLASSES:
+        return owner
+    for k in mro(_CLASSES, owner):
+        if any(isinstance(n, ast.ClassDef) and n.name == nested for n in _CLASSES[k].node.body):
+            return k
+    return owner
+
+
 def _validator_ctor(call: ast.Call) -> tuple:
     f = call.func
     if isinstance(f, ast.Attribute) and isinstance(f.value, ast.Name):
-        key = (f.value.id, f.attr)
+        key = (_defining_class(f.value.id, f.attr), f.attr)
     elif isinstance(f, ast.Name):
         key = (None, f.id)
     else:
@@ -407,6 +420,8 @@ def validator_sources(classes: Dict[str, Cls]) -> List[Tuple[str, str]]:
 # ------------------------------------------------------------------------------------------- assemble
 def build():
     classes = load_classes()
+    _CLASSES.clear()
+    _CLASSES.update(classes)
     inits: Dict[str, InitInfo] = {}
     for cname, c in classes.items():
         fn = c.method("_init_request_manager")
